@@ -25,6 +25,7 @@ func WriteCompound(w io.Writer, c Compound, opts *WriteOptions, env *Env) error 
 	}
 
 	opts = opts.withVisited(c)
+	defer delete(opts.visited, id(c))
 
 	a := env.Resolve(c.Arg(0))
 	if n, ok := a.(Integer); ok && opts.numberVars && c.Functor() == atomVar && c.Arity() == 1 && n >= 0 {
